@@ -1,5 +1,6 @@
 """C19 - External-tool output is imported totally and faithfully (FR3D listings, DSSR JSON)."""
 import random
+import time
 from concurrent.futures import ThreadPoolExecutor
 
 from .. import lib, externalimport as xi
@@ -21,8 +22,10 @@ TIERS = {
 MIN_ACTIONS = {
     "label": ("StripN", "StripA", "TryBR", "TryBPh", "TryStack", "TryLW", "FallThrough"),
     "listing": ("SkipLine", "ParseLine", "TooFewParts", "ParseUnit1", "ParseUnit2", "Unify", "AppendItem", "Catch", "Eof"),
-    "dssr": ("DssrPair", "DssrPairsEnd", "DssrDone"),
+    "dssr": ("DssrPair", "DssrPairsEnd", "DssrStackStep", "DssrStackEnd", "DssrDone"),
 }
+MIN_ACTIONS_CFG = {"dssr_pairs1": ("DssrPair", "DssrPairsEnd", "DssrDone"),
+                   "dssr_stacks4": ("DssrPairsEnd", "DssrStackStep", "DssrStackEnd", "DssrDone")}
 NEGATIVE = [("dssr_asimpl", "DssrPairsExact",
              "as implemented (LwTest = dir): an LW string that is a class attribute name raises KeyError"),
             ("listing_uncontained", "Fr3dNeverRaises",
@@ -55,6 +58,12 @@ def run(tier):
     t = TIERS[tier]
     rep = lib.Report(PID, tier, "model_checking")
     rng = random.Random(lib.seed() * 7919 + 19)
+    phases, t0 = {}, time.time()
+
+    def mark(name):
+        nonlocal t0
+        phases[name] = round(time.time() - t0, 1)
+        t0 = time.time()
     with lib.Scratch(PID.lower()) as sc:
         xi.set_scratch(sc.dir)
         # ---- code -> spec, part 1: the exhaustive label sweep through the real unify_classification
@@ -62,8 +71,10 @@ def run(tier):
         blocks = lib.pmap(xi.sweep_block, jobs, chunksize=4)
         label_cases = blocks + [xi.label_domain_case(blocks, t["maxlen"])]
         hit_labels = sorted({"".join(h["label"]) for b in blocks for h in b["hits"]})
+        mark("label_sweep")
         # ---- spec -> code: template domains enumerated by TLC, materialised as text
         tpl = xi.gen_templates(tier, sc)
+        mark("gen")
         listings = xi.listing_cases_from_templates(tpl["line"], rng, "lst", t["line_copies"])
         listings += xi.label_listing_cases(hit_labels + xi.other_labels(rng, t["others"]), rng, "lab")
         listings.append(xi.corpus_listing_case("184D-fr3d.txt"))
@@ -79,25 +90,31 @@ def run(tier):
         extra = xi.dssr_cases_from_templates({"pair": tpl["pair"][:: max(1, len(tpl["pair"]) // (4 * t["main_dssr"]))],
                                               "stack": tpl["stack"][::7]}, corpus_structs, rng, "dssrmain", 1)
         dssr += [dict(c, via="main") for c in extra[: t["main_dssr"]]]
+        mark("materialise")
         recorded = lib.pmap(xi.record, listings + dssr)
+        mark("record")
         allc = label_cases + recorded
         # ---- design-level model checks (+ negative controls) run beside the trace validation
         with ThreadPoolExecutor(max_workers=6) as ex:
             fut_mc = [ex.submit(_mc, (name, None, sc)) for name in t["mc"]]
             fut_neg = [ex.submit(_mc, (name, inv, sc)) for name, inv, _ in NEGATIVE]
             res = lib.trace_validate("Trace_ExternalImport", "Trace_ExternalImport.cfg", allc, sc)
+            mark("trace_validate")
             mcs = [f.result() for f in fut_mc]
             negs = [f.result() for f in fut_neg]
+        mark("mc_wait")
+        cov_phases = phases
         for name, r in zip(t["mc"], mcs):
             mode = name.split("_")[0]
             rep.add_mc(r, f"adapter algorithm model, mode {mode} ({name}): C19 clauses as invariants",
-                       min_actions=MIN_ACTIONS[mode])
+                       min_actions=MIN_ACTIONS_CFG.get(name, MIN_ACTIONS[mode]))
         for (name, inv, what), r in zip(NEGATIVE, negs):
             rep.add_mc(r, f"{what}; must violate {inv}", negative_control=True)
         rep.add_trace(res, {c["id"]: c for c in allc}, "C19")
         cov = rep.cov
         tried = sum(b["count"] for b in blocks)
         cov["exhaustive"] = True
+        cov["phase_wall_s"] = cov_phases
         cov["labels_tried"] = tried
         cov["labels_recognised"] = len(hit_labels)
         cov["templates"] = {k: len(v) for k, v in tpl.items()}
